@@ -1252,19 +1252,18 @@ static Token *preprocess2(Token *tok) {
 }
 
 void define_macro(char *name, char *buf) {
-  // -D'F(x)=x+1' defines a function-like macro, as '#define F(x) x+1'
-  // does.
-  if (strchr(name, '(')) {
-    Token *tok = tokenize(new_file("<built-in>", 1, format("%s %s\n", name, buf)));
-    read_macro_definition(&tok, tok);
-    return;
-  }
-
-  Token *tok = tokenize(new_file("<built-in>", 1, format("%s\n", buf)));
-  add_macro(name, true, tok);
+  // -DNAME=BODY defines what '#define NAME BODY' does, whether NAME
+  // is written with a parameter list, white space or neither.
+  Token *tok = tokenize(new_file("<built-in>", 1, format("%s %s\n", name, buf)));
+  tok->at_bol = false;
+  read_macro_definition(&tok, tok);
 }
 
 void undef_macro(char *name) {
+  // -U'NAME ' names the macro NAME as '#undef NAME ' does.
+  Token *tok = tokenize(new_file("<built-in>", 1, format("%s\n", name)));
+  if (tok->kind == TK_IDENT)
+    name = strndup(tok->loc, tok->len);
   hashmap_delete(&macros, name);
 }
 
